@@ -425,6 +425,16 @@ func genIssArgs(r *Rng) (uint, *transaction.IssuanceContract, uint64, uint64, st
 	if r.Chance(12) {
 		tconf = !conf
 	}
+	if r.Chance(8) {
+		// token-only issuance: no asset amount, the asset destination missing or given, a token
+		// amount and a valid token destination of either kind (pset v0 wants an asset address anyway)
+		token |= 1
+		aaddr := ""
+		if r.Chance(40) {
+			aaddr = issGenAddr(r, tconf)
+		}
+		return prec, c, 0, token, aaddr, issGenAddr(r, tconf), r.Bool()
+	}
 	return prec, c, asset, token, issGenAddrMaybe(r, conf), issGenAddrMaybe(r, tconf), r.Bool()
 }
 func writeIssArgs(b *sb, prec uint, c *transaction.IssuanceContract, asset, token uint64, aaddr, taddr string, blinded bool) {
